@@ -80,7 +80,7 @@ PROPS = {
     },
     "C13": {
         "families": [("det", {"quick": 1500, "thorough": 80000}, {"mode": "c13"}),
-                     ("det", {"quick": 64, "thorough": 3000}, {"mode": "c13", "child": True})],
+                     ("det", {"quick": 128, "thorough": 3000}, {"mode": "c13", "child": True})],
         "wall": {"quick": 200, "thorough": 2400},
         "rule": "one evaluation = one scenario (tree, options, listing order, entry point) executed in a cold simulated process and "
                 "again with a chosen set of nondeterminism dimensions changed (entropy, random seed, hash-set order, clock/pid, "
